@@ -8,7 +8,7 @@
 
   A transaction is viewed as the byte lengths of its three original CBOR parts
   (`KeepRaw::raw_cbor().len()`); `aux = none` is the `null` placeholder.
-  `u32` arithmetic of the fee formula carries the dev-profile overflow panic.
+  The fee formula is computed in `u64` from `u32` operands (C33 `fix:`; it was `u32` arithmetic with an overflow panic).
 -/
 namespace PallasVerif.FeeSize
 
@@ -42,10 +42,13 @@ inductive Res where
   | ok | feeBelowMin | maxTxSizeExceeded | panic
   deriving DecidableEq, Repr
 
-/-- `if tx_body.fee < (minfee_b + minfee_a * size) as u64 { Err(FeeBelowMin) }` with `u32` operands -/
+def U64_MAX : Nat := 18446744073709551615
+
+/-- `if tx_body.fee < minfee_b as u64 + minfee_a as u64 * *size as u64 { Err(FeeBelowMin) }`: `u64` arithmetic on
+    operands that are `u32`s (the `panic` arms are the overflow checks; `Props/C33.lean` shows them dead) -/
 def checkMinFee (fee a b size : Nat) : Res :=
-  if a * size > U32_MAX then .panic
-  else if b + a * size > U32_MAX then .panic
+  if a * size > U64_MAX then .panic
+  else if b + a * size > U64_MAX then .panic
   else if fee < b + a * size then .feeBelowMin else .ok
 
 /-- `if *size > prot_pps.max_transaction_size { Err(MaxTxSizeExceeded) }` -/
